@@ -134,12 +134,19 @@ UNDEFINED_DIRECTIVES = ['    .fill 0, undefined_q', '    .fill undefined_q, 0', 
                         '    .fill KZ, undefined_q']
 
 
+UNKNOWN_DIRECTIVES = ['#endfi', '#defne QX 1', '##define QX 1', '#pragma once', '#mtue', '#elseif 1', '#includ "inc.asm"']
+
+
 def must_reject_insertions(lines):
     """An unresolvable label in any directive position - also where the directive ends up emitting nothing - must not assemble."""
     out = []
     for i in range(len(lines) + 1):
         for d in UNDEFINED_DIRECTIVES:
             out.append((f'insert {d.strip()!r} before line {i}: unresolvable label', ['KZ = 0'] + lines[:i] + [d] + lines[i:]))
+    # a line that starts with # and is no directive the assembler knows (a misspelled one): an unknown instruction
+    for i in range(len(lines) + 1):
+        for d in UNKNOWN_DIRECTIVES:
+            out.append((f'insert {d!r} before line {i}: unknown directive', lines[:i] + [d] + lines[i:]))
     return out
 
 
@@ -174,7 +181,7 @@ def meta(tier):
                 'deviation: drop / duplicate / garble (5 characters) each token, drop / duplicate each line, insert a zero-length '
                 'directive at each position, and the four must-reject replacements (undefined label, unknown mnemonic, operands no '
                 'variant accepts, a local label used from another region, a stray comma or a stray character after the operands, value just outside its field on either side), a directive with an unresolvable label inserted at each '
-                'position (also directives that emit nothing: .fill 0, x); the repository\'s example programs (quick: the small ones) damaged one line at a time (dropped, doubled, first word garbled, last character dropped) under rotating output configurations, judged on the invariants; expression-length family (N in 8,16,24,32,64 tokens in every expression position); long-word family (an operand, string or '
+                'position (also directives that emit nothing: .fill 0, x), a misspelled # directive inserted at each position; the repository\'s example programs (quick: the small ones) damaged one line at a time (dropped, doubled, first word garbled, last character dropped) under rotating output configurations, judged on the invariants; expression-length family (N in 8,16,24,32,64 tokens in every expression position); long-word family (an operand, string or '
                 'bracket that is opened and never closed, followed by one word of 16..64 characters or many short ones, in 25 positions); '
                 'empty-image family (5 programs that assemble to no byte at all x configurations x output pre-seeded / absent: the image must exist afterwards); '
                 'wide-address family (address widths 24/32/40/64 x code at 7 addresses around 2^16, 2^24, 2^32, 2^40, 2^48 x every format, where a '
